@@ -188,7 +188,7 @@ func c09Record(dir string, cfg c09Config) (b0 []byte, ops []lite.VfsOp, endDB, e
 }
 
 func runC09(r *ev.Run) {
-	r.Rule = "real SQLite write transactions (one-row autocommit update, small update, spilling bulk insert with cache_size=1, file-growing insert, delete with auto-vacuum truncation, schema change, spilled rollback, the first transaction ever on a file of 0 bytes, a writer with synchronous=OFF whose journal header carries the record count 0xFFFFFFFF) recorded under a logging VFS, journal modes DELETE/TRUNCATE/PERSIST, page sizes {512 (+1024, 4096 thorough)}, sector sizes {512, 4096}; for the log of N file operations: every prefix 0..N (the writer process dies before operation k; completed system calls persist) and for every write its torn variants (first 512 bytes, first half rounded to 512; for small writes every 4-byte prefix); oracle: real SQLite opens a copy of the pair, performs its own recovery and dumps it; sqlittle on the original either fails or returns exactly that dump; every image is read by a fresh handle (operation boundaries: also one that opens the file through a symbolic link, by a relative name, and through `link/../name` behind a symbolically linked directory) and by handles opened before the writer started (one of them by a relative name in a process that changes its working directory afterwards, one that read next to a cold journal file which was removed before the dead writer made its own): one that read everything, one that was only opened, one that only listed the tables, (operation boundaries) one that was refused a read once while another process held EXCLUSIVE, and a fresh handle while another process is in the middle of a read; from the commit point on (journal deleted / truncated / header zeroed) and before the first operation it must succeed. conformance: replaying the whole log reproduces the files the real run left behind, byte for byte. non-trivial = images with a journal on disk"
+	r.Rule = "real SQLite write transactions (one-row autocommit update, small update, spilling bulk insert with cache_size=1, file-growing insert, delete with auto-vacuum truncation, schema change, spilled rollback, the first transaction ever on a file of 0 bytes, a writer with synchronous=OFF whose journal header carries the record count 0xFFFFFFFF) recorded under a logging VFS, journal modes DELETE/TRUNCATE/PERSIST, page sizes {512 (+1024, 4096 thorough)}, sector sizes {512, 4096}; for the log of N file operations: every prefix 0..N (the writer process dies before operation k; completed system calls persist) and for every write its torn variants (first 512 bytes, first half rounded to 512; for small writes every 4-byte prefix); oracle: real SQLite opens a copy of the pair, performs its own recovery and dumps it; sqlittle on the original either fails or returns exactly that dump; every image is read by a fresh handle (operation boundaries: also one that opens the file through a symbolic link, by a relative name, and through `link/../name` behind a symbolically linked directory) and by handles opened before the writer started (one of them by a relative name in a process that changes its working directory afterwards, one that read next to a cold journal file which was removed before the dead writer made its own, one in a process that has used up its file descriptors when it reads): one that read everything, one that was only opened, one that only listed the tables, (operation boundaries) one that was refused a read once while another process held EXCLUSIVE, and a fresh handle while another process is in the middle of a read; from the commit point on (journal deleted / truncated / header zeroed) and before the first operation it must succeed. conformance: replaying the whole log reproduces the files the real run left behind, byte for byte. non-trivial = images with a journal on disk"
 	dir := ev.TmpDir("c09")
 	defer os.RemoveAll(dir)
 	c09Peers = make(chan *Peer, 8)
@@ -329,6 +329,11 @@ func runC09(r *ev.Run) {
 				}
 				// ... or read next to a cold journal file that has been removed since (the dead writer's journal is another file of the same name)
 				c09ImageKind(r, dir, fmt.Sprintf("c%d-j%d", ci, ii), cfg, &f, desc, mustSucceed, im.k, opsS, b0, "saw-a-cold-journal")
+				// ... or a handle in a process that has no file descriptor left when it reads (the journal cannot be opened:
+				// that is no reason to take it for absent)
+				if ii%4 == 0 {
+					c09ImageKind(r, dir, fmt.Sprintf("c%d-f%d", ci, ii), cfg, &f, desc, false, im.k, opsS, b0, "out-of-file-descriptors")
+				}
 				// ... or a handle opened by a relative name in a process that changes its working directory afterwards
 				c09ImageKind(r, dir, fmt.Sprintf("c%d-w%d", ci, ii), cfg, &f, desc, mustSucceed, im.k, opsS, b0, "relative-name-then-chdir")
 				// ... or was refused a read once (another process held the EXCLUSIVE lock), then read fine
@@ -351,8 +356,8 @@ func c09Image(r *ev.Run, dir, name string, cfg c09Config, f *c09Files, desc stri
 // kind (with before != nil): what the handle did before the writer started: "long-lived" read everything,
 // "opened-only" nothing (Open remembers the header), "schema-only" listed the tables
 func c09ImageKind(r *ev.Run, dir, name string, cfg c09Config, f *c09Files, desc string, mustSucceed bool, k int, opsS []string, before []byte, kind string) {
-	if kind == "relative-name-then-chdir" {
-		c09Chdir(r, dir, name, cfg, f, desc, mustSucceed, k, opsS, before)
+	if kind == "relative-name-then-chdir" || kind == "out-of-file-descriptors" {
+		c09Chdir(r, dir, name, cfg, f, desc, mustSucceed, k, opsS, before, kind)
 		return
 	}
 	// the journal is found by name: vary the database file's name (extension, dots, none)
@@ -559,7 +564,7 @@ func c09ImageKind(r *ev.Run, dir, name string, cfg c09Config, f *c09Files, desc 
 // a relative name on the state before the transaction and lists the tables; the process changes its working
 // directory; the dead writer's files appear; the handle reads. SQLite makes the journal's name absolute when
 // the file is opened.
-func c09Chdir(r *ev.Run, dir, name string, cfg c09Config, f *c09Files, desc string, mustSucceed bool, k int, opsS []string, before []byte) {
+func c09Chdir(r *ev.Run, dir, name string, cfg c09Config, f *c09Files, desc string, mustSucceed bool, k int, opsS []string, before []byte, handle string) {
 	if len(before) == 0 {
 		return
 	}
@@ -571,6 +576,7 @@ func c09Chdir(r *ev.Run, dir, name string, cfg c09Config, f *c09Files, desc stri
 	os.WriteFile(orig, before, 0o644)
 	p := <-c09Peers
 	defer func() {
+		p.Do("freefds")
 		p.Do("eclose")
 		p.Do("chdir /")
 		c09Peers <- p
@@ -610,7 +616,6 @@ func c09Chdir(r *ev.Run, dir, name string, cfg c09Config, f *c09Files, desc stri
 	if from < 0 {
 		from = 0
 	}
-	handle := "relative-name-then-chdir"
 	art := map[string]interface{}{"config": cfg.String(), "crash": desc, "handle": handle, "journal_bytes": len(f.journal), "journal_exists": f.hasJ, "db_bytes": len(f.db), "operations_before": opsS[from:k]}
 	var want string
 	sqliteOK := false
@@ -621,7 +626,13 @@ func c09Chdir(r *ev.Run, dir, name string, cfg c09Config, f *c09Files, desc stri
 		}
 		l.Close()
 	}
+	if handle == "out-of-file-descriptors" {
+		p.Do("eatfds")
+	}
 	st, got := p.Do("edump")
+	if handle == "out-of-file-descriptors" {
+		p.Do("freefds")
+	}
 	if st != "ok" {
 		r.Outcome("refused")
 		if mustSucceed {
